@@ -254,9 +254,25 @@ class UserActions(object):
       # Convert bulk actions to single actions if possible, or None if it affects no rows.
       action = action.simplify()
     if action:
+      if isinstance(action, (actions.UpdateRecord, actions.BulkUpdateRecord)):
+        self._flush_calc_changes_for_update(action)
       self._engine.out_actions.stored.append(action)
       self._engine.out_actions.direct.append(self._indirection_level == DIRECT_ACTION)
       self._engine.apply_doc_action(action)
+
+  def _flush_calc_changes_for_update(self, action):
+    """
+    A data column may have changes calculated earlier in this bundle (by its trigger formula, when
+    something needed its value) that are still waiting in the summary of calculated changes. Turn
+    them into actions before an update of that column is recorded, so that they stay ahead of it
+    rather than being emitted after it, at the end of the bundle.
+    """
+    table = self._engine.tables.get(action.table_id)
+    if table is None:
+      return
+    for col_id in action.columns:
+      if table.has_column(col_id) and not table.get_column(col_id).is_formula():
+        self._engine.out_actions.flush_calc_changes_for_column(action.table_id, col_id)
 
   def _do_extra_doc_action(self, action):
     # It this is Update, Add (or Bulks), run thouse actions through ensure_column_accepts_data
